@@ -367,7 +367,7 @@ PROPS = {
         "harnesses": [
             {"id": "admit", "func": "VerifAdmit", "pkg": NODE, "pkgname": "node", "load": ["./node"],
              "params": {"quick": {"matrix": 0}, "thorough": {"matrix": 1, "positions": 1}},
-             "maxpaths": {"thorough": 800000},
+             "maxpaths": {"thorough": 800000}, "workers": {"thorough": 13},
              "must_cover": ["must-reject", "must-drop", "must-execute"], "max_witness_replays": 9},
             {"id": "admit-cross", "func": "VerifAdmit", "pkg": NODE, "pkgname": "node", "load": ["./node"], "thorough_only": True,
              "params": {"quick": {"matrix": 0}, "thorough": {"matrix": 0}},
